@@ -60,6 +60,10 @@ def clause_props(K, clause, cfg):
     # and trace-shape facet of its contract in the guarded modes
     if mode in GUARDED and clause[:2] in ("C.", "T.", "N.") and K.guard_relevant and ("C01" in K.cprops or "C06" in K.tprops):
         out = out | {"C09"}
+    # C17: "nothing else becomes public" -- the body of a wrapped function is arbitrary traced code, so every operation
+    # must allocate exactly the public values its contract counts (none, except val/PubVal)
+    if clause == "N.counts" and "C06" in K.tprops and K.layer == "gadget":
+        out = out | {"C17"}
     return out
 
 
@@ -80,6 +84,9 @@ def select(prop):
         if prop == "C09" and prop not in ps and K.guard_relevant and ("C01" in K.cprops or "C06" in K.tprops):
             out.append((K, "CTN"))
             continue
+        if prop == "C17" and prop not in ps and "C06" in K.tprops and K.layer == "gadget":
+            out.append((K, "N"))
+            continue
         if prop in ps:
             out.append((K, getattr(K, "facets", None) or fac))
     return out
@@ -88,6 +95,8 @@ def select(prop):
 def cfg_relevant(prop, K, cfg):
     if prop == "C09" and "C09" not in (set(K.cprops) | set(K.vprops) | set(K.tprops) | set(K.fprops)):
         return cfg.get("mode") in GUARDED
+    if prop == "C17" and "C17" not in (set(K.cprops) | set(K.vprops) | set(K.tprops) | set(K.fprops) | set(K.sprops)):
+        return cfg.get("mode", "plain") == "plain"
     if prop == "C07":
         return cfg.get("mode") in GUARDED or "C07" in K.fprops
     return True
